@@ -81,25 +81,22 @@ def outcomeOk (result : Ty) : Res Value → Bool
 well-formed, annotation-free, placeholder-free types -/
 def plainTy (t : Ty) : Bool := t.wf && !t.hasOpt && !t.hasDyn
 
-/-- for sortTypes: position of an index in the returned order -/
-def posOf (order : List Nat) (i : Nat) : Option Nat :=
-  let p := order.findIdx (· == i)
-  if p < order.length then some p else none
-
-/-- "more general than" as sortTypes reads it: `compareTypes(tys[i], tys[j]) < 0` -/
+/-- "`tys[i]` is preferred to `tys[j]`" as sortTypes reads it — an edge `i → j` of its
+graph: `compareTypes` is called once per pair, with the lower index first -/
 def prefers (tys : List Ty) (i j : Nat) : Bool :=
   match tys[i]?, tys[j]? with
-  | some a, some b => decide (compareTypes a b < 0)
+  | some a, some b =>
+    (decide (i < j) && decide (compareTypes a b < 0)) || (decide (j < i) && decide (compareTypes b a > 0))
   | _, _ => false
 
-/-- the order respects every preference between two of its members:
-whenever `i` is preferred to `j`, `i` stands before `j` -/
-def respectsPrefs (tys : List Ty) (order : List Nat) : Bool :=
-  (List.range tys.length).all fun i => (List.range tys.length).all fun j =>
-    !(prefers tys i j) ||
-      (match posOf order i, posOf order j with
-       | some pi, some pj => decide (pi < pj)
-       | _, _ => false)
+/-- the nodes sortTypes actually visits, in visiting order (`result` up to the end of
+the queue window; the rest of the `result` array keeps its zero value) -/
+def sortVisited (tys : List Ty) : List Nat :=
+  let l := tys.length
+  let edges := (List.range l).map (edgesOf tys)
+  let deg := (List.range l).map fun j => (edges.map fun outs => (outs.filter (· == j)).length).sum
+  let queue := (List.range l).filter fun i => deg.getD i 1 = 0
+  sortLoop edges (l + 1) queue deg []
 
 /-- the order is a permutation of `0 … len-1` -/
 def isPermutation (n : Nat) (order : List Nat) : Bool :=
